@@ -1,4 +1,26 @@
-FINDINGS = []
+FINDINGS = [
+    dict(id="C07-crlf-line-endings-converted", property="C07",
+         pattern=dict(check="doctrans", clause="line_endings_changed", layout="crlf"),
+         what="a file with CRLF line endings is read and written in text mode: every line, not only headers and docstrings, comes back with LF endings (on POSIX)",
+         site="cdd/compound/doctrans.py:doctrans (open(filename, 'rt') / open(filename, 'wt') with universal newlines)",
+         example="any module with \\r\\n line endings whose docstrings change"),
+    dict(id="C07-raw-docstring-kept-and-second-docstring-added", property="C07",
+         pattern=dict(check="doctrans", layout="raw_doc", clause={"in": ["erased_ast_differs", "other_lines_differ"]}),
+         what="a docstring written as a raw string (r\"\"\"...\"\"\") is not recognised as the existing docstring in the concrete syntax: a new docstring is inserted above it and the old one "
+         "stays behind as an expression statement (the erased AST gains a statement)",
+         site="cdd/shared/cst_utils.py:cst_parse_one_node (TripleQuoted requires the statement to *start* with the quotes) / cdd/shared/ast_cst_utils.py:maybe_replace_doc_str_in_function_or_class",
+         example="def f(a, b):\\n    r\"\"\"Summary...\"\"\"  -> two string statements after doctrans"),
+    dict(id="C07-tab-indented-file-corrupted", property="C07",
+         pattern=dict(check="doctrans", layout="tabs", clause="result_does_not_parse"),
+         what="a tab-indented module is corrupted: the docstring is emitted several times with unbalanced quotes and the result is not valid Python",
+         site="cdd/shared/ast_cst_utils.py:maybe_replace_doc_str_in_function_or_class (indentation arithmetic assumes spaces) / cdd/docstring/emit.py",
+         example="def f(a, b):\\n\\t\"\"\"...\"\"\"\\n\\treturn a   with any target style"),
+    dict(id="C07-one-line-def-with-docstring-corrupted", property="C07",
+         pattern=dict(check="doctrans", layout="oneline_def_doc", clause="result_does_not_parse"),
+         what="a definition whose docstring sits on the header line (def f(a, b): \"\"\"Summary.\"\"\") is rewritten into an unterminated triple-quoted string",
+         site="cdd/shared/ast_cst_utils.py:maybe_replace_doc_str_in_function_or_class (assumes the docstring is its own CST node after the header)",
+         example="def f(a, b): \"\"\"Summary of it.\"\"\""),
+]
 FIXED = [
     "fixed: property=C07 a43d289 a header whose string default contains '->' (def f(a, sep='->')) was cut at the string when annotations were added or removed; the result was not valid Python",
     "fixed: property=C07 a5b649f doctrans with annotations added/removed rebuilt headers from names+annotations only: defaults, *args, **kwargs, keyword-only and positional-only markers were lost (def f(a, b=5) -> def f(a: str, b: int))",
